@@ -105,7 +105,7 @@ def render(rng, forms):
 def run(tier, seed):
     ctx = core.Ctx(PID, tier, seed, LEVEL)
     rng = ctx.rng
-    n = 1500 if tier == "quick" else core.share(20000)
+    n = 1500 if tier == "quick" else core.share(80000)
     ctx.rule = ("random displaying programs (header import, definitions, display/newline/show of integers, ratios, booleans, symbols, strings, characters, lists, vectors; a counter "
                 "mutated by displayed expressions) with, at a random form, nothing / one run-time fault of 14 kinds / one syntax error of 6 kinds, optionally importing a library file "
                 "beside the program; LF or CRLF, with or without final newline; run as `ruschm FILE` from an unrelated cwd holding a decoy library, by absolute or relative path; plus "
